@@ -92,6 +92,9 @@ func nearMissWorkload(c *Ctx, f func(entry, input string)) {
 		}
 		gen.SystematicEdits(txt, emit)
 		gen.SystematicMoves(txt, emit)
+		if len(txt) <= 1500 {
+			gen.SystematicSwaps(txt, emit)
+		}
 		for _, w := range []int{13, 70} {
 			gen.WidenLists(txt, w, func(m string) {
 				emit(m)
@@ -142,6 +145,12 @@ func nearMissWorkload(c *Ctx, f func(entry, input string)) {
 			f(e, m)
 			c.Count("near_miss_inputs", 1)
 		})
+		if len(cc.Text) <= 1500 {
+			gen.SystematicSwaps(cc.Text, func(m string) {
+				f(e, m)
+				c.Count("near_miss_inputs", 1)
+			})
+		}
 	}
 	rr := gen.NewRand(c.Seed, 4300+uint64(c.Shard))
 	g := gen.NewG(rr)
@@ -263,6 +272,50 @@ func sortStrings(l []string) {
 	for i := 1; i < len(l); i++ {
 		for j := i; j > 0 && l[j] < l[j-1]; j-- {
 			l[j], l[j-1] = l[j-1], l[j]
+		}
+	}
+}
+
+// foldAlikeWorkload: every sentence of the systematic set with one pseudo-keyword replaced by a back-quoted identifier
+// that differs from the word only by Unicode case folding (U+017F for s, U+212A for k, dotless / dotted i): such a
+// name is an ordinary identifier, never the keyword or builtin type it resembles. Mostly rejected; judged when
+// accepted.
+func foldAlikeWorkload(c *Ctx, f func(entry, input string)) {
+	set, _, _ := gen.SystematicSet()
+	r := gen.NewRand(1, 4500)
+	idx := 0
+	alike := func(w string) []string {
+		var out []string
+		lw := lowerASCII(w)
+		for i := 0; i < len(lw); i++ {
+			switch lw[i] {
+			case 's':
+				out = append(out, lw[:i]+"ſ"+lw[i+1:], w[:i]+"ſ"+w[i+1:])
+			case 'k':
+				out = append(out, lw[:i]+"K"+lw[i+1:], w[:i]+"K"+w[i+1:])
+			case 'i':
+				out = append(out, lw[:i]+"ı"+lw[i+1:], w[:i]+"İ"+w[i+1:])
+			}
+		}
+		return out
+	}
+	for _, s := range set {
+		for i, t := range s.Toks {
+			if t.Role != gen.PKW {
+				continue
+			}
+			for _, a := range alike(t.Text) {
+				if c.Mine(idx) {
+					s2 := gen.Sentence{Entry: s.Entry, Toks: append([]gen.Tok(nil), s.Toks...)}
+					s2.Toks[i] = gen.Tok{Role: gen.ID, Text: a, Quote: true}
+					txt := gen.Render(r, s2, gen.RenderOpts{})
+					if len(txt) <= 4000 {
+						f(s.Entry, txt)
+						c.Count("fold_alike_inputs", 1)
+					}
+				}
+				idx++
+			}
 		}
 	}
 }
